@@ -1676,3 +1676,145 @@ def oracle_c15(tables, seed, tier, deep):
 
 
 ORACLES["C15"] = oracle_c15
+
+
+# ------------------------------------------------------------------------------------------- C11
+
+def oracle_c11(tables, seed, tier, deep):
+    """whole-program: every initial state of the key path x run sequences; key bytes, mode, exit status, output file."""
+    import tempfile, shutil, stat as pystat
+    big = tier == "thorough" or deep
+    rng = SplitMix(seed ^ 0xC11)
+    viol, dist = [], collections.Counter()
+    n = 0
+    good = base64.b64encode(bytes(rng.below(256) for _ in range(64)))
+    other = base64.b64encode(bytes(rng.below(256) for _ in range(64)))
+    line1 = b'{"t":{"$date":"2024-01-01T00:00:00.000+00:00"},"s":"I","c":"COMMAND","id":1,"ctx":"c","msg":"Slow query","attr":{"ns":"d.c","command":{"find":"c","filter":{"name":"zqsecretvalue","mail":"Who@Example.org"},"$db":"d"}}}\n'
+    line_long = b'{"c":"COMMAND","attr":{"command":{"filter":{"x":"' + b"y" * 70000 + b'"}}}}\n'
+    # name -> (initial content or special, usable?, key bytes expected in force)
+    states = {
+        "absent": (None, True), "valid": (good, True), "valid-lf": (good + b"\n", True), "valid-crlf": (good + b"\r\n", True),
+        "empty": (b"", False), "short": (base64.b64encode(b"k" * 32), False), "long": (base64.b64encode(b"k" * 65), False), "len96": (base64.b64encode(b"k" * 72), False),
+        "not-base64": (b"!!!! not base64 !!!!", False), "valid-then-junk": (good + b"#junk-after-the-key", False), "two-keys": (good + other, False),
+        "valid-then-space": (good + b" ", False), "binary-64": (bytes(rng.below(256) for _ in range(64)), False),
+        "dir": ("DIR", False), "parent-missing": ("NOPARENT", False), "under-a-file": ("UNDERFILE", False), "dangling-symlink": ("DANGLING", True), "symlink-valid": ("SYMLINK", True),
+    }
+    seqs = [["ok"], ["ok", "ok"], ["ok", "ok", "ok"], ["abort", "ok"], ["ok", "abort"]] if big else [["ok", "ok"], ["abort", "ok"]]
+    work = tempfile.mkdtemp(prefix="verif_c11_")
+    try:
+        for sname, (init, usable) in states.items():
+            for seq in seqs:
+                d = tempfile.mkdtemp(dir=work)
+                key = os.path.join(d, "k.key")
+                target = key
+                if init == "DIR":
+                    os.mkdir(key)
+                elif init == "NOPARENT":
+                    key = os.path.join(d, "nodir", "k.key")
+                elif init == "UNDERFILE":
+                    open(os.path.join(d, "plainfile"), "wb").write(b"x")
+                    key = os.path.join(d, "plainfile", "k.key")
+                elif init == "DANGLING":
+                    target = os.path.join(d, "real.key")
+                    os.symlink(target, key)
+                elif init == "SYMLINK":
+                    target = os.path.join(d, "real.key")
+                    open(target, "wb").write(good)
+                    os.chmod(target, 0o640)
+                    os.symlink(target, key)
+                elif init is not None:
+                    open(key, "wb").write(init)
+                    os.chmod(key, 0o644)
+                before = open(target, "rb").read() if os.path.isfile(target) else None
+                mode_before = pystat.S_IMODE(os.stat(target).st_mode) if os.path.isfile(target) else None
+                first_key = None
+                cts_seen = {}
+                for ri, kind_ in enumerate(seq):
+                    inp = os.path.join(d, "in%d.log" % ri)
+                    open(inp, "wb").write(line1 + (line_long if kind_ == "abort" else b"") + line1)
+                    outp = os.path.join(d, "out%d.log" % ri)
+                    rc, so, se = run_cli(["redact", inp, "-o", outp, "--encrypt", "--encryptionKeyFile", key], cwd=d)
+                    n += 1
+                    tag = "%s/%s/run%d" % (sname, "+".join(seq), ri)
+                    dist["%s:%s" % (sname, "exit0" if rc == 0 else "exit!=0")] += 1
+                    out_bytes = open(outp, "rb").read() if os.path.exists(outp) else b""
+                    now = open(target, "rb").read() if os.path.isfile(target) else None
+                    rep = {"cfg": "-", "cli_flags": ["--encrypt", "--encryptionKeyFile", "<%s>" % sname], "input": "key path state %r, run sequence %r, run %d" % (sname, seq, ri)}
+                    if not usable:
+                        if rc == 0:
+                            viol.append(dict(rep, site="key:unusable-accepted:" + sname, detail="unusable key file (%s) but the run exits 0" % sname))
+                        if out_bytes.strip():
+                            viol.append(dict(rep, site="key:unusable-output:" + sname, detail="unusable key file (%s) but redacted output was written: %r" % (sname, out_bytes[:80])))
+                        if now != before:
+                            viol.append(dict(rep, site="key:overwritten:" + sname, detail="the unusable key file was modified: %r -> %r" % ((before or b"")[:40], (now or b"")[:40])))
+                        continue
+                    # usable (or absent -> created)
+                    if before is not None and now != before:
+                        viol.append(dict(rep, site="key:overwritten:" + sname, detail="an existing valid key file was modified"))
+                    if before is not None and mode_before is not None and os.path.isfile(target) and pystat.S_IMODE(os.stat(target).st_mode) != mode_before:
+                        viol.append(dict(rep, site="key:mode-changed:" + sname, detail="mode of the existing key file changed"))
+                    has_ct = b'"filter":{"name":"' in out_bytes and b"zqsecretvalue" not in out_bytes
+                    if b"zqsecretvalue" in out_bytes or b"Who@Example.org" in out_bytes:
+                        viol.append(dict(rep, site="key:plaintext:" + sname, detail="plaintext in the encrypt-mode output"))
+                    if kind_ == "ok" and rc != 0:
+                        viol.append(dict(rep, site="key:usable-rejected:" + sname, detail="usable key state but exit %d: %r" % (rc, se[-200:])))
+                        continue
+                    if kind_ == "abort" and rc == 0:
+                        viol.append(dict(rep, site="key:abort-exit0", detail="a run with an over-long line exits 0"))
+                    if out_bytes.strip():
+                        # any ciphertext on disk must be decryptable with the key file on disk NOW (key stored before the first ciphertext)
+                        if now is None:
+                            viol.append(dict(rep, site="key:ciphertext-without-key:" + sname, detail="ciphertext was written but no key file exists after the run (exit %d)" % rc))
+                            continue
+                        try:
+                            kb = base64.b64decode(now, validate=False)
+                        except Exception:
+                            kb = b""
+                        if before is None and ri == 0 or first_key is None:
+                            if before is None:
+                                m = pystat.S_IMODE(os.stat(target).st_mode)
+                                if m != 0o600:
+                                    viol.append(dict(rep, site="key:mode:" + sname, detail="fresh key file has mode %o, expected 600" % m))
+                                if len(kb) != 64 or now != base64.b64encode(kb):
+                                    viol.append(dict(rep, site="key:format:" + sname, detail="fresh key file is not the base64 of 64 bytes: %r" % now[:100]))
+                        first = out_bytes.split(b"\n")[0]
+                        try:
+                            o = parse_json(first.decode("utf-8"))
+                            ct = get_path(o, ("attr", "command", "filter", "name"))
+                            ct2 = get_path(o, ("attr", "command", "filter", "mail"))
+                        except Exception:
+                            ct = ct2 = None
+                        for c_, want in ((ct, "zqsecretvalue"), (ct2, "Who@Example.org")):
+                            if not isinstance(c_, str):
+                                continue
+                            rc2, so2, se2 = run_cli(["decrypt", c_, "--decryptionKeyFile", key], cwd=d)
+                            n += 1
+                            if rc2 != 0 or not so2.endswith(("Raw value: " + want + "\n").encode()):
+                                viol.append(dict(rep, site="key:readback:" + sname, detail="ciphertext in the output does not decrypt with the key file on disk to %r (exit %d, %r)" % (want, rc2, so2[-60:])))
+                            cts_seen.setdefault(want, set()).add(c_)
+                    if first_key is None and now is not None:
+                        first_key = now
+                    elif first_key is not None and now != first_key:
+                        viol.append(dict(rep, site="key:changed-between-runs:" + sname, detail="the key file changed after the first successful run"))
+                for want, s_ in cts_seen.items():
+                    if len(s_) > 1:
+                        viol.append({"site": "key:nondeterministic:" + sname, "detail": "same plaintext, same key file, different ciphertexts across runs", "input": sname, "cfg": "-"})
+        # fresh keys are pairwise distinct (sampled; randomness is not provable)
+        keys = set()
+        for i in range(8 if big else 3):
+            d = tempfile.mkdtemp(dir=work)
+            inp = os.path.join(d, "in.log")
+            open(inp, "wb").write(line1)
+            run_cli(["redact", inp, "-o", os.path.join(d, "o.log"), "--encrypt", "--encryptionKeyFile", os.path.join(d, "k")], cwd=d)
+            n += 1
+            if os.path.exists(os.path.join(d, "k")):
+                keys.add(open(os.path.join(d, "k"), "rb").read())
+        if len(keys) < (8 if big else 3):
+            viol.append({"site": "key:not-fresh", "detail": "generated keys repeat", "input": "", "cfg": "-"})
+    finally:
+        shutil.rmtree(work, ignore_errors=True)
+    return result(viol, n, len(states) * len(seqs), "whole program: every initial state of the key path (absent, valid with/without trailing LF/CRLF, empty, short, long, not base64, valid followed by junk / a space / a second key, raw bytes, directory, missing parent, path below a regular file, symlinks) x run sequences incl. a run aborted by an over-long line; key bytes and mode before/after, exit status, output file, decrypt of the emitted ciphertext with the key on disk; distinct_nontrivial = state x sequence combinations",
+                  dist, [{"states": sorted(states)}])
+
+
+ORACLES["C11"] = oracle_c11
